@@ -282,6 +282,28 @@ fn main() {
                 ctx.exhaustive.insert(format!("all Sop/Esop/Soes with <= {} terms, n={}", exh, n), true);
             }
             _ => {
+                // a sweep over text lengths: a fixed list of dense terms preceded by a cube of k literals, for
+                // every k, then a short tail term: the position where the tail's separator falls takes every
+                // value modulo small powers of two
+                if c == 0 {
+                    for terms in [4usize, 8, 9, 17, 33, 40] {
+                        for lead in 0..=12usize {
+                            let nn = 12usize;
+                            let mut cl: Vec<(u32, u32)> = Vec::new();
+                            cl.push(((1u32 << lead) - 1, 0));
+                            for t in 0..terms {
+                                let pos = (0x5a5u32.rotate_left(t as u32) ^ (t as u32 * 37)) & 0xfff;
+                                cl.push((pos, !pos & 0xfff));
+                            }
+                            cl.push((1 << 9, 1 << 8));
+                            cl.push((1, 0));
+                            run(ctx, &mut d, &mut rng, Kind::Sop, nn, &cl);
+                            run(ctx, &mut d, &mut rng, Kind::Esop, nn, &cl);
+                            let el: Vec<(u32, u32)> = cl.iter().map(|(p, q)| (*p | (*q & 0x111), (p.count_ones() & 1))).collect();
+                            run(ctx, &mut d, &mut rng, Kind::Soes, nn, &el);
+                        }
+                    }
+                }
                 let reps = if thorough { 300000 } else { 2000 };
                 for _ in 0..reps {
                     let nn = rng.range(4, 12);
@@ -312,6 +334,27 @@ fn main() {
                     run(ctx, &mut d, &mut rng, Kind::Sop, nn, &cl);
                     run(ctx, &mut d, &mut rng, Kind::Esop, nn, &cl);
                     run(ctx, &mut d, &mut rng, Kind::Soes, nn, &el);
+                    // long forms: 8..64 terms (texts of hundreds to thousands of characters: buffer boundaries)
+                    if rng.chance(1, 4) {
+                        let terms = rng.range(8, 64);
+                        let dense = rng.bool();
+                        let cl: Vec<(u32, u32)> = (0..terms)
+                            .map(|_| {
+                                if dense {
+                                    // every variable appears
+                                    let pos = rng.next_u64() as u32 & ((1u32 << nn) - 1);
+                                    (pos, !pos & ((1u32 << nn) - 1))
+                                } else {
+                                    rc(&mut rng)
+                                }
+                            })
+                            .collect();
+                        let el: Vec<(u32, u32)> = (0..terms).map(|_| re(&mut rng)).collect();
+                        run(ctx, &mut d, &mut rng, Kind::Sop, nn, &cl);
+                        run(ctx, &mut d, &mut rng, Kind::Esop, nn, &cl);
+                        run(ctx, &mut d, &mut rng, Kind::Soes, nn, &el);
+                        ctx.cell_only("long-forms");
+                    }
                     // single wide cubes / exclusive cubes: two-digit indices up to 31
                     let mut w = CubeM::new(0, 0);
                     for _ in 0..rng.below(7) {
@@ -347,5 +390,6 @@ fn main() {
         }
         required.push(format!("{}|terms=2|two-digit", k));
     }
+    required.push("long-forms".into());
     cli.finish(&ctx, &required, RULE);
 }
